@@ -1226,6 +1226,7 @@ func (ea *functionAnalysisState) ProcessBlock(bb *ssa.BasicBlock) (changed bool)
 					// Directly check all pairs for monotonicity
 					if less, _ := p.input.LessEqual(pre); less {
 						if lessOut, reason := p.output.LessEqual(post); !lessOut {
+							verifMonoViolation(instr, reason)
 							ea.prog.logger.Warnf("Monotonicity violation at %v because %s\n", instr, reason)
 							ea.prog.logger.Warnf("A <= B but !(C <= D)\nA (old pre):\n%v\nB (new pre):\n%v\nC (old post):\n%v\nD (new post):\n%v\n",
 								p.input.Graphviz(),
@@ -1282,6 +1283,7 @@ func (ea *functionAnalysisState) RunForwardIterative() error {
 	}
 	for len(ea.worklist) > 0 {
 		verifhook.At("escape.RunForwardIterative.step")
+		verifReorderBlocks(ea)
 		block := ea.worklist[0]
 		ea.worklist = ea.worklist[1:]
 		g := ea.blockEnd[block]
@@ -1499,6 +1501,7 @@ func EscapeAnalysis(state *dataflow.AnalyzerState, root *callgraph.Node) (*Progr
 	// the list
 	for len(worklist) > 0 {
 		verifhook.At("escape.EscapeAnalysis.step")
+		verifReorderFuncs(worklist)
 		summary := worklist[len(worklist)-1]
 		worklist = worklist[:len(worklist)-1]
 
